@@ -16,6 +16,8 @@ IsEv(a) == l <= Len(Traces[tid].ev) /\ Ev.act = a /\ l' = l + 1 /\ UNCHANGED tid
 Opts == DOMAIN req
 FieldEq(obs, model) == \A o \in Opts : Chk(o, obs[o] = model[o])
 TConfig  == IsEv("Config") /\ InitParse /\ Chk("InitSucceeds", Ev.ok) /\ UNCHANGED <<>>
+(* the Python entry: the configuration file written by BaseConfiguration(...).content from values, then `naunet render --force` *)
+TDirect  == IsEv("Direct") /\ DirectWrite /\ Chk("ConfigWritten", Ev.ok)
 TContent == IsEv("Toml") /\ Content /\ FieldEq(Ev.fields, toml')
 TRender  == IsEv("NetworkArgs") /\ RenderRead /\ Chk("RenderSucceeds", Ev.ok) /\ FieldEq(Ev.fields, args')
 TSources == IsEv("Sources") /\ pc = "done" /\ Chk("SameSourcesAsApi", Ev.same) /\ UNCHANGED cvars
@@ -24,7 +26,7 @@ TSources == IsEv("Sources") /\ pc = "done" /\ Chk("SameSourcesAsApi", Ev.same) /
 TSummary == IsEv("Summary") /\ pc = "done" /\ Chk("SummaryAgreesWithSources", Ev.consistent) /\ UNCHANGED cvars
 (* `naunet example`: the configuration it writes (through `naunet init`) holds the tables of the bundled example it was asked for *)
 TExample == IsEv("Example") /\ Chk("ExampleConfigIsTheExample", Ev.same) /\ UNCHANGED cvars
-TNext == TConfig \/ TContent \/ TRender \/ TSources \/ TSummary \/ TExample
+TNext == TConfig \/ TDirect \/ TContent \/ TRender \/ TSources \/ TSummary \/ TExample
 TSpec == TInit /\ [][TNext]_<<cvars, tid, l>>
 Track ==
   /\ Chk("Inv:RoundTripId", RoundTripId)
